@@ -96,6 +96,62 @@ def opSpecC15 : List V → Option V
         | .error e => pkOfErr e)
   | _ => none
 
+def pkOfPairs (l : List (List Char × List Char)) : V := ofList (fun x => list [pkOfStr x.1, pkOfStr x.2]) l
+
+def pkOkL (s : List Char) : Bool := s.all (fun c => c.toNat < 128 && c != '\n' && c != '\r')
+
+/-- `matchdecoy shuffledTargets decoys` → the `decoy_map` items of `match_decoy`, in insertion order,
+`shuffledTargets` being the targets as arranged by `targets.sample(frac=1, random_state=rng)` -/
+def opMatchDecoy : List V → Option V
+  | [sh, ds] => do
+      let sh ← toList? pkStr? sh
+      let ds ← toList? pkStr? ds
+      if !(sh.all pkOkL && ds.all pkOkL) then some (atom "unsupported") else
+      some (pkOfPairs (Mk.Picked.matchDecoy sh ds))
+  | _ => none
+
+/-- apply the drawn arrangement (`perm[i]` = position in `keys` of the i-th shuffled element) -/
+def pkShuffle (keys : List (List Char)) (perm : List Nat) : Option (List (List Char)) :=
+  if perm.length != keys.length then none else perm.mapM (fun i => keys[i]?)
+
+/-- `pickedfull hasDecoys prefix peptideMap shared proteinMap perm rows` → `[pairing, entries | reject-…]`:
+`picked_protein` with the pairing computed by the model of `match_decoy` from the drawn arrangement
+`perm` of the sorted peptide-map keys (the pairing is reported as empty when the FASTA has decoys: the
+code does not draw one) -/
+def opPickedFull : List V → Option V
+  | [hd, pre, pm, sh, prm, perm, rows] => do
+      let P ← pkProteins? [hd, pre, pm, sh, prm]
+      let perm ← toList? toNat? perm
+      let rows ← toList? pkRow? rows
+      let shuffled ← pkShuffle (Mk.Picked.pairingTargets P) perm
+      if !pkStringsOk P [] rows then some (atom "unsupported") else
+      let dm := if P.hasDecoys then [] else Mk.Picked.pairing shuffled rows
+      some (list [pkOfPairs dm, match Mk.Picked.pickedFull pkLe P shuffled rows with
+        | .ok es => ofList pkOfEntry es
+        | .error e => pkOfErr e])
+  | _ => none
+
+def pkOfEQ (eq : Mk.Picked.Entry Rat × Rat) : V := list [pkOfEntry eq.1, ofRat eq.2]
+
+/-- `pickedfiles hasDecoys prefix peptideMap shared proteinMap dm rows decoys desc` →
+`[targets.proteins rows, decoys.proteins rows | none]` (each row `[entry, q]`) | reject-… :
+the protein level of `assign_confidence(decoys=…, descs=[desc])`; the arrangement of the level
+table is a stable merge sort by descending score (unique when the scores are distinct) -/
+def opPickedFiles : List V → Option V
+  | [hd, pre, pm, sh, prm, dm, rows, decoys, desc] => do
+      let P ← pkProteins? [hd, pre, pm, sh, prm]
+      let dm ← pkPairs? dm
+      let rows ← toList? pkRow? rows
+      let decoys ← toBool? decoys
+      let desc ← toBool? desc
+      if !pkStringsOk P dm rows then some (atom "unsupported") else
+      some (match Mk.Picked.picked pkLe P dm (Mk.Picked.orient (fun (x : Rat) => -x) desc rows) with
+        | .ok es =>
+          let f := Mk.Picked.proteinFiles (tdc pkLe) decoys (es.mergeSort (fun a b => pkLe b.score a.score))
+          list [ofList pkOfEQ f.1, ofOpt (ofList pkOfEQ) f.2]
+        | .error e => pkOfErr e)
+  | _ => none
+
 /-- `pairkey proteinMap group` → the pair key of a group name -/
 def opPairKey : List V → Option V
   | [prm, g] => do
@@ -111,6 +167,7 @@ open Mk.V Mk.Ops.Picked
 
 def pickedOps : List (String × (List V → Option V)) :=
   [("strip", opStrip), ("picked", opPicked), ("pickedq", opPickedQ), ("spec-C15", opSpecC15),
-   ("pairkey", opPairKey)]
+   ("pairkey", opPairKey), ("matchdecoy", opMatchDecoy), ("pickedfull", opPickedFull),
+   ("pickedfiles", opPickedFiles)]
 
 end Mk.Ops
